@@ -113,9 +113,22 @@ func probeC16DeleteLosesToDelete() (bool, string) {
 var specC16Conc = &Spec{
 	ID:   "C16",
 	Rule: "concurrent mode: case = C01's generator (1..2 keys, prelude, 2..4 clients x 1..4 requests, a schedule over the storage gates; free-running shards on goroutines) with every request sent through the etcd-compatible server as the transaction shape kube-apiserver uses. Oracle: no answer combines \"compare failed\" with a failure-branch key-value whose modification revision is the compared one (no execution of etcd produces that); successes form a chain in revision order; header >= data. Non-trivial = overlapping requests with at least one success and one failed compare that carries a key-value; distinct = SHA-1 of the case",
-	Gen:  func(t *rapid.T) interface{} { return genConcCase(t, 0, 0, 4) },
-	New:  func() interface{} { return &ConcCase{} },
-	Run:  runC16Conc,
+	Gen: func(t *rapid.T) interface{} {
+		c := genConcCase(t, 0, 0, 4)
+		// no guessed revisions here: a compare against a revision that has not been handed out yet can fail and the
+		// key can reach exactly that revision before the failure branch is read — an answer no etcd client can
+		// provoke, since clients only compare against revisions they have seen
+		for ci := range c.Clients {
+			for oi := range c.Clients[ci] {
+				if c.Clients[ci][oi].Exp == "soon" {
+					c.Clients[ci][oi].Exp = "latest"
+				}
+			}
+		}
+		return c
+	},
+	New: func() interface{} { return &ConcCase{} },
+	Run: runC16Conc,
 	Match: func(cse interface{}, err error) string {
 		if strings.Contains(err.Error(), "failure-branch[delete-after-delete]") {
 			return "guarded-delete-losing-a-race-returns-the-key-it-read"
